@@ -1199,6 +1199,9 @@ class Translator:
         rid = rd["id"]
         info = self.ast.D.get(rid)
         node = self.ast.nodes.get(rid)
+        if info is None and rd.get("name") == "npos":
+            self.rule("std::string::npos")
+            return X("lit", "((unsigned long)-1)", ty=parse_type("unsigned long"))
         if info is None:
             raise ExtractionBreak("global %s unknown" % rd.get("name"))
         ty = parse_type(info["type"])
@@ -1244,6 +1247,9 @@ class Translator:
             if not mnode and std is not None and bty.kind == "rec" and std.record(bty.name) is not None and not std.is_opaque(bty.name):
                 # field of a modelled std record (std::pair): the declaration lives in a system header (not dumped)
                 fl = dict(std.record(bty.name))
+                if e["name"] == "npos":
+                    self.rule("std::string::npos")
+                    return X("lit", "((unsigned long)-1)", ty=parse_type("unsigned long"))
                 if e["name"] not in fl:
                     raise ExtractionBreak("field '%s' of modelled record %s" % (e["name"], bty.name))
                 self.need_record(bty.name)
